@@ -1197,11 +1197,16 @@ class Generator:
         if self.rng.random() < 0.15:
             toks = self.rng.sample(vis, 1)
         add = self.rng.random() < 0.2
-        if add:
-            # grouping twice by the same column is not documented either way: not generated
+        if add and self.rng.random() < 0.5:
             toks = [t for t in toks if t not in pt.m.grouping]
             if not toks:
                 return None
+        elif add and any(t in pt.m.grouping for t in toks):
+            # grouping again by a column the table is already grouped by = grouping by it once
+            self.m.note("group_by_add_repeats_column")
+        if self.rng.random() < 0.08:
+            toks = toks + [toks[0]]  # the same column listed twice
+            self.m.note("group_by_column_twice")
         cols = []
         for t in toks:
             a = self.maybe_oos(pt, ("int", "str")) or self.refarg(pt, t, allow_str=True)
